@@ -19,6 +19,8 @@ VERIF = os.path.dirname(os.path.dirname(os.path.abspath(__file__)))
 REPO = os.path.abspath(os.environ.get('VERIF_REPO', '/repo'))
 TMP = os.environ.get('VERIF_TMP', '/var/tmp')
 NPROC = int(os.environ.get('VERIF_PROCS', '0')) or min(16, os.cpu_count() or 1)
+# where evidence/ and replays/ are written (default /verif itself; sensitivity runs against scratch mutants redirect it)
+OUT = os.path.abspath(os.environ.get('VERIF_OUT', VERIF))
 
 EXIT_OK, EXIT_VIOLATION, EXIT_HARNESS = 0, 1, 2
 
@@ -272,13 +274,13 @@ class Check:
                 print('KNOWN-FINDING: property=%s %s [%s; seen %d times in this run]'
                       % (self.prop, k.get('what', ''), k['id'], hit))
         replays = []
-        os.makedirs(os.path.join(VERIF, 'replays'), exist_ok=True)
+        os.makedirs(os.path.join(OUT, 'replays'), exist_ok=True)
         for f in viol:
             body = {'property': self.prop, 'sig': f['sig'], 'what': f['what'], 'case': f['case'],
                     'seed': self.seed, 'tier': self.tier}
             name = '%s-%s.json' % (self.prop, hashlib.sha256(
                 json.dumps(body, sort_keys=True, default=repr).encode()).hexdigest()[:12])
-            path = os.path.join(VERIF, 'replays', name)
+            path = os.path.join(OUT, 'replays', name)
             with open(path, 'w') as fh:
                 json.dump(body, fh, indent=1, sort_keys=True, default=repr)
             replays.append(path)
@@ -309,8 +311,8 @@ class Check:
             'wall_s': round(time.time() - self.t0, 3),
             'violations': len(viol),
         }
-        os.makedirs(os.path.join(VERIF, 'evidence'), exist_ok=True)
-        with open(os.path.join(VERIF, 'evidence', self.prop + '.json'), 'w') as fh:
+        os.makedirs(os.path.join(OUT, 'evidence'), exist_ok=True)
+        with open(os.path.join(OUT, 'evidence', self.prop + '.json'), 'w') as fh:
             json.dump(ev, fh, indent=1, default=repr)
         print('%s %s: %d evaluations, %d distinct non-trivial, %d violation signature(s), %.1fs'
               % (self.prop, self.tier, res.evaluations, nt, len(viol), time.time() - self.t0))
